@@ -495,9 +495,15 @@ Definition processAKE_body (now : N) (ty : N) (body : option akebody) (aux : N) 
 Definition processAKE (now : N) (ty : N) (body : option akebody) (aux : N) : M (list wire * N) :=
   LET c <- get IN
   (match c_ake c with None => modify (fun c => (c <| c_ake := Some ake_init |>)) | Some _ => ret tt end) ;;;
+  LET c0 <- get IN
+  let st0 := match c_ake c0 with Some a => a_state a | None => 0 end in
   LET r <- processAKE_body now ty body aux IN
   let '(single, extra, err) := r in
-  set_ake (fun a => (a <| a_lastStateChange := Some now |>)) ;;;
+  LET c1 <- get IN
+  let st1 := match c_ake c1 with Some a => a_state a | None => 0 end in
+  (* a message that was rejected or ignored does not count as progress of the key exchange *)
+  (if (err =? 0) && ((match single with Some _ => true | None => false end) || negb (st1 =? st0))
+   then set_ake (fun a => (a <| a_lastStateChange := Some now |>)) else ret tt) ;;;
   (if err =? 0 then ret tt else event c_MessageEventSetupError) ;;;
   ret ((match single with Some w => [w] | None => [] end) ++ extra, err).
 
